@@ -365,7 +365,7 @@ fn main() {
              after every operation pixel() is compared with the reference map on the area plus a ring, data() with the documented layout, the tail bytes with their pre-fill. Non-trivial = at least two operations changed in-range pixels; distinct = distinct (instantiation, operation trace).",
         );
         run.assume("reference map updated in lockstep from the documented meaning of each DrawTarget operation; layout decoder written from the documentation");
-        let reps = run.tier(1500u64, 30000u64);
+        let reps = run.tier(1500u64, 400_000u64);
         macro_rules! inst {
             ($c:ty, $o:ty, $w:expr, $h:expr, $extra:expr) => {{
                 const N: usize = (($w * <$c as PixelColor>::Raw::BITS_PER_PIXEL + 7) / 8) * $h + $extra;
